@@ -53,5 +53,28 @@ claim("C17", "Exact decision of: no order-sensitive consumption of hash-ordered 
       _NOTE + "Set typing is an under-approximation (untyped containers are not followed). Not decided: byte-identity of "
       "whole outputs.",
       "unordered-iteration taint analysis + global-state inventory")
-for _p in ["C01","C02","C03","C04","C05","C06","C07","C10","C11","C18","C19","C20"]:
+claim("C05", "Exact decision of: direction typing of every minimum/maximum assignment of the transfer functions for + - * ?: "
+      "$max by abstract interpretation per operator (R-BOUNDDIR), operand coverage of modulus/modular_value (R-OPERANDS), "
+      "operator meaning in constant folders and source-token tables incl. three-valued AND/OR/?: (R-CONSTFOLD), operator "
+      "table exhaustiveness (R-DISPATCH-FM), registration and exemptions of the 64-bit gate (R-GATE).",
+      _NOTE + "Not decided: gcd/modulus formulas, leaf ranges, infinity arithmetic helpers, tightness.",
+      "abstract interpretation (Lo/Hi bound-direction lattice) of the transfer functions")
+claim("C10", "Exact decision of: documented = implemented pattern tables in order, terminal/symbol agreement (R-TOKTABLE); skipped "
+      "patterns are whitespace-only and no pattern matches empty, on the regex AST (R-TOKSKIP); strict-greater tie-break "
+      "and literal-first order (R-TOKTIE); token text/columns/advance as linear forms over {offset, len(match)} "
+      "(R-TOKPOS); Indent/Dedent pairing with the stack per block and epilogue (R-INDENT).",
+      _NOTE + "Not decided: longest-match result on every string; name/number classification beyond table equality.",
+      "table agreement + regex-AST check + linear-form evaluation of column arithmetic")
+claim("C11", "Exact decision of: one formatter per production with matching arity (R-GRAMMAR-EQ, R-HANDLER); no formatter drops "
+      "a child that can derive a non-blank token (R-FMTLINEAR, def-use closure; 22 blank drops + 1 tabled); in-place "
+      "write dominated by the self-check and skipped on failure (R-FMTGUARD); self-check compares symbol and text "
+      "(R-FMTSELFCHECK).",
+      _NOTE + "Not decided: idempotence, layout passes, never-raises.",
+      "def-use flow analysis of formatters against the grammar + dominance lint")
+claim("C18", "Exact decision of: every leaf type of the IR schema has inverse conversions and supported annotation shapes "
+      "(R-SERIALTYPES); SourceLocation text form is inverted flag by flag in reverse order (R-SRCLOC); one-process and "
+      "two-process drivers use the same entry points, Config and to_json/from_json(EmbossIr) (R-DRIVERS).",
+      _NOTE + "Not decided: equality of arbitrary IRs after a round trip; header identity.",
+      "schema-driven converter exhaustiveness + driver entry-point agreement")
+for _p in ["C01","C02","C03","C04","C06","C07","C19","C20"]:
     na(_p, "check under construction in this session (see DESIGN.md section 4 for the planned structural clauses)")
